@@ -697,14 +697,14 @@ def generate(ctx, shard=0, nshards=1):
     rng = ctx.rng
     if shard == 0:
         check_malformed(ctx)
-    nds = ctx.n(2400, 60000) // nshards + 1
+    nds = ctx.n(6000, 60000) // nshards + 1
     _seen[0] = _seen[1] = 0
     for k in range(nds):
         if enough_failures(ctx):
             ctx.notes.append('generation stopped early: more than 40 new predicate failures in this shard')
             break
         check_dataset(ctx, rng, full_perms=(ctx.tier == 'thorough' and k % 4 == 0) or k % 25 == 0)
-    for _ in range(ctx.n(800, 16000) // nshards + 1):
+    for _ in range(ctx.n(2000, 16000) // nshards + 1):
         if enough_failures(ctx):
             break
         check_degenerate(ctx, rng)
